@@ -1,5 +1,6 @@
 import Driver.XsdD
 import ZeepModel.Xsd.Bind
+import ZeepModel.Xsd.Denote
 namespace Driver
 open Lean Zeep Zeep.Xsd Zeep.Bind
 
@@ -53,5 +54,51 @@ def bindCall (j : Json) : R Json := do
   pure <| match call fs as tag pos kw with
   | .ok n => Json.mkObj [("node", jNode n)]
   | .error e => Json.mkObj [("error", Json.str (bErrName e))]
+
+/-! `bind.denote`: the schema a signature denotes (`toTy`, compared with the type zeep compiled — expanded names
+up to their namespace) and the instance the arguments denote (`itemOf`), the definitions the value-level round-trip
+theorem (ZeepProofs/C01Values.lean) is stated with. -/
+
+def occEq : Occ → Occ → Bool
+  | .unbounded, .unbounded => true
+  | .bounded a, .bounded b => a == b
+  | _, _ => false
+
+mutual
+partial def tyEqv : Ty → Ty → Bool
+  | .simple, .simple => true
+  | .anyType, .anyType => true
+  | .simpleContent a, .simpleContent b => a.map (·.q.name) == b.map (·.q.name)
+  | .complex c1 a1 h1, .complex c2 a2 h2 =>
+    (a1.map fun d => (d.q.name, d.required)) == (a2.map fun d => (d.q.name, d.required)) && h1 == h2 &&
+    (match c1, c2 with
+      | none, none => true
+      | some p, some q => particleEqv p q
+      | _, _ => false)
+  | _, _ => false
+partial def particleEqv : Particle → Particle → Bool
+  | .elem q1 m1 x1 t1, .elem q2 m2 x2 t2 => q1.name == q2.name && m1 == m2 && occEq x1 x2 && tyEqv t1 t2
+  | .any m1 x1, .any m2 x2 => m1 == m2 && occEq x1 x2
+  | .seq ps m1 x1, .seq qs m2 x2 => m1 == m2 && occEq x1 x2 && particlesEqv ps qs
+  | .choice ps m1 x1, .choice qs m2 x2 => m1 == m2 && occEq x1 x2 && particlesEqv ps qs
+  | .all ps c1, .all qs c2 => c1 == c2 && particlesEqv ps qs
+  | .group p m1 x1, .group q m2 x2 => m1 == m2 && occEq x1 x2 && particleEqv p q
+  | _, _ => false
+partial def particlesEqv : List Particle → List Particle → Bool
+  | [], [] => true
+  | p :: ps, q :: qs => particleEqv p q && particlesEqv ps qs
+  | _, _ => false
+end
+
+def bindDenote (j : Json) : R Json := do
+  let fs ← listOf parseBField (← fld j "fields")
+  let as ← parseBAttrs (← fld j "attrs")
+  let kw ← listOf (fun kv => do
+    let a ← arr kv
+    pure ((← str (← at! a 0)), (← parseArg (← at! a 1)))) (← fld j "kw")
+  let zty ← parseTy (← fld j "ty")
+  pure <| Json.mkObj [("item", jItem (itemOf (.record fs as) (.dict kw))),
+    ("ty_matches", Json.bool (tyEqv (toTy (.record fs as)) zty)),
+    ("no_nillable", Json.bool (noNillableFs fs)), ("no_nil", Json.bool (Arg.noNilD kw))]
 
 end Driver
